@@ -420,6 +420,7 @@ class CompositeDisplacementMove(CompositeMove[DisplacementMove]):
                 move.unique_labels, filtered_displaced_labels, assume_unique=True
             )
             if len(available_candidates) == 0:
+                move.to_displace_labels = None
                 self.register_failure()
                 continue
 
